@@ -402,21 +402,21 @@ func c07P4(c *Ctx, w *World) {
 		pair string
 	}
 	table := map[string]entry{
-		"staking.teDeposit":               {map[string]int{"AddBalance": 1}, "refund of handleDeposit's debit (V5)"},
-		"staking.teDelegationAdd":         {map[string]int{"AddBalance": 2}, "refund of handleDelegationAdd's debit (V5)"},
-		"staking.doPenalize":              {map[string]int{"AddBalance": 1}, "credit of the total taken by takePenalty to PenaltyTo"},
-		"staking.handleCreate":            {map[string]int{"SubBalance": 1}, "debit recorded as pending staking record; credited by teCreate"},
-		"staking.handleDeposit":           {map[string]int{"SubBalance": 1}, "debit recorded as pending staking record; credited/refunded by teDeposit"},
-		"staking.handleDelegationAdd":     {map[string]int{"SubBalance": 1}, "debit recorded as pending delegation record; credited/refunded by teDelegationAdd"},
-		"staking.settleValidatorRewards":  {map[string]int{"AddBalance": 4}, "pays out RewardsDistributable, which the replacement record zeroes / reduces to the residue"},
-		"staking.processWithdrawQueue":    {map[string]int{"AddBalance": 1}, "pays FinalBalance of a withdraw record once (P3)"},
-		"staking.blockRewards":            {map[string]int{"SubBalance": 1}, "subsidies leave the rewards pool and enter the block's total rewards"},
-		"core.Transfer":                   {map[string]int{"SubBalance": 1, "AddBalance": 1}, "sender debit = recipient credit"},
-		"(core.MessageContext).buyGas":    {map[string]int{"SubBalance": 1}, "gas bought at GasPrice; refunded by refundGas, the rest becomes gas rewards"},
-		"(core.MessageContext).refundGas": {map[string]int{"AddBalance": 1}, "unused gas at the same GasPrice"},
-		"(core.Genesis).ToBlock":          {map[string]int{"AddBalance": 1}, "genesis allocation"},
+		"staking.teDeposit":                            {map[string]int{"AddBalance": 1}, "refund of handleDeposit's debit (V5)"},
+		"staking.teDelegationAdd":                      {map[string]int{"AddBalance": 2}, "refund of handleDelegationAdd's debit (V5)"},
+		"staking.doPenalize":                           {map[string]int{"AddBalance": 1}, "credit of the total taken by takePenalty to PenaltyTo"},
+		"staking.handleCreate":                         {map[string]int{"SubBalance": 1}, "debit recorded as pending staking record; credited by teCreate"},
+		"staking.handleDeposit":                        {map[string]int{"SubBalance": 1}, "debit recorded as pending staking record; credited/refunded by teDeposit"},
+		"staking.handleDelegationAdd":                  {map[string]int{"SubBalance": 1}, "debit recorded as pending delegation record; credited/refunded by teDelegationAdd"},
+		"staking.settleValidatorRewards":               {map[string]int{"AddBalance": 4}, "pays out RewardsDistributable, which the replacement record zeroes / reduces to the residue"},
+		"staking.processWithdrawQueue":                 {map[string]int{"AddBalance": 1}, "pays FinalBalance of a withdraw record once (P3)"},
+		"staking.blockRewards":                         {map[string]int{"SubBalance": 1}, "subsidies leave the rewards pool and enter the block's total rewards"},
+		"core.Transfer":                                {map[string]int{"SubBalance": 1, "AddBalance": 1}, "sender debit = recipient credit"},
+		"(core.MessageContext).buyGas":                 {map[string]int{"SubBalance": 1}, "gas bought at GasPrice; refunded by refundGas, the rest becomes gas rewards"},
+		"(core.MessageContext).refundGas":              {map[string]int{"AddBalance": 1}, "unused gas at the same GasPrice"},
+		"(core.Genesis).ToBlock":                       {map[string]int{"AddBalance": 1}, "genesis allocation"},
 		"(internal/youapi.PublicBlockChainAPI).doCall": {map[string]int{"SetBalance": 1}, "simulated call on a throw-away state copy (never committed)"},
-		"internal/youapi.DoCall":          {map[string]int{"SetBalance": 1}, "simulated call on a throw-away state copy (never committed)"},
+		"internal/youapi.DoCall":                       {map[string]int{"SetBalance": 1}, "simulated call on a throw-away state copy (never committed)"},
 	}
 	got := map[string]map[string]int{}
 	pos := map[string]token.Pos{}
